@@ -88,6 +88,19 @@ func c06(r *Run) {
 		r.mustPass("C06.R2:relock-when-data"+key, "when the re-read after unlock finds buffered input the task tries the processing lock again", ro.task, u,
 			starts, func(x ssa.Instruction) bool { return isKeyCall(x, ro.lock, kP) }, nil, nil, "trylock(processing) on every path from the Len()>0 edge")
 	}
+	// (b') the task exits after unlock(processing) without re-trying the lock only on an edge where it observed the
+	// input buffer EMPTY (or has no handler)
+	for i, u := range unlocks {
+		empty := lenZeroFact(true)
+		noHandler := func(v ssa.Value) (bool, bool) {
+			pol, ok := onReqSetAssume(v)
+			return !pol, ok
+		}
+		ss := &Search{Fn: ro.task, Stop: anyOf(func(x ssa.Instruction) bool { return isKeyCall(x, ro.lock, kP) }, closedRun), CutEdge: cutOn(anyAtom(empty, noHandler))}
+		wit := ss.Find([]Start{After(u)}, nil, true)
+		r.Visited += ss.Visited
+		r.obW("C06.R2:exit-only-if-drained"+ordinal(i), "after unlock(processing) the task exits without re-trying the lock only on an edge where it observed the input buffer empty: anything the poller published while the lock was still held is picked up", ro.task, u, wit, "trylock(processing), or an empty observation, on every path to exit")
+	}
 	// (c) a re-taken lock leads back to the OnRequest test: to an OnRequest call, an unlock (next round of the hand-off) or the close callbacks
 	for i, st := range edgesEstablishing(ro.task, callResultAtom(ro.lock, true, kP)) {
 		r.mustPass(fmt.Sprintf("C06.R2:relock-leads-to-handler#%d", i+1), "after a successful re-lock every path runs OnRequest, or releases the lock again (re-entering the re-check), or runs the close callbacks", ro.task, st.B.Instrs[0],
